@@ -126,13 +126,8 @@ func regexify(name string) (*regexp.Regexp, error) {
 	if name == "" {
 		name = "(?i).*"
 	}
-	// Anchor if required.
-	if !strings.HasPrefix(name, "^") {
-		name = fmt.Sprintf("^%s", name)
-	}
-	if !strings.HasSuffix(name, "$") {
-		name = fmt.Sprintf("%s$", name)
-	}
+	// Anchor the whole expression; the group ensures the anchors apply to every alternative.
+	name = fmt.Sprintf("^(?:%s)$", name)
 	// Case insensitivity if required.
 	if !strings.HasPrefix(name, "(?i)") {
 		name = fmt.Sprintf("(?i)%s", name)
